@@ -117,9 +117,10 @@ Definition spec_call (M : shape) (ms : members) : option rval :=
   else None.
 
 (* varlink_service::Method<'a>, api.rs:13-26: serde's own adjacently tagged derive.
-   Tree as pinned: GetInfo is a plain unit variant.  After `fix: accept an empty parameters
-   object for GetInfo` its content is read by a function accepting null and any object. *)
-Definition vs_getinfo_kind : vkind := KUnit.
+   Tree as pinned: GetInfo was a plain unit variant (KUnit).
+   Since ab57644 `fix: org.varlink.service.GetInfo accepts an empty parameters object` it carries
+   #[serde(deserialize_with = "no_parameters")] (null or any object; absent still accepted). *)
+Definition vs_getinfo_kind : vkind := KLenient.
 
 Definition vs_method_shape : shape :=
   SAdj "method" "parameters"
